@@ -446,6 +446,7 @@ static void c09_model(sup::Ctx& ctx, sup::Rng& r, long n) {
     // resolve a zone-read civil time through O-ZONE
     bool m_ok = m.st == fm::ParseRes::ACCEPT;
     i128 mt = m.t;
+    bool nonunique_beyond_range = false;  // input-class predicate for the known finding D14 (computed from the model alone)
     if (m_ok && !m.has_offset) {
       auto ans = z.Z.civil(m.L);
       if (ans.kind == orc::Zone::OUTSIDE_DOMAIN) {
@@ -454,7 +455,10 @@ static void c09_model(sup::Ctx& ctx, sup::Rng& r, long n) {
       }
       mt = ans.pre;
       if (ans.kind != orc::Zone::UNIQUE) ctx.stat("C09.skipped_or_repeated_civil_inputs");
-      if (!orc::fits64(mt)) m_ok = false;
+      if (!orc::fits64(mt)) {
+        m_ok = false;
+        nonunique_beyond_range = ans.kind != orc::Zone::UNIQUE;
+      }
     }
     ctx.set_case("class=model op=parse zone=%s/%s fmt-hex=%s in-hex=%s", z.cls.c_str(), z.name.c_str(), sup::hexs(fmt).c_str(), sup::hexs(in).c_str());
     tp_t tp;
@@ -471,7 +475,9 @@ static void c09_model(sup::Ctx& ctx, sup::Rng& r, long n) {
       std::ostringstream d;
       d << "zone=" << z.cls << "/" << z.name << " fmt='" << fmt << "' in='" << in << "' cctz ok=" << ok << " t=" << (ok ? un(tp) : 0) << " fs=" << (ok ? gfs.count() : 0)
         << " | model ok=" << m_ok << " t=" << S(mt) << " fs=" << S(m.fs);
-      ctx.viol("C09", "parse:" + what + (fmt.find("z") != std::string::npos && what == "different-instant" ? ":offset-field" : ""), d.str());
+      std::string key = "parse:" + what + (fmt.find("z") != std::string::npos && what == "different-instant" ? ":offset-field" : "");
+      if (ok && !m_ok && nonunique_beyond_range) key += ":skipped-or-repeated-civil-time-whose-pre-reading-is-beyond-the-range";
+      ctx.viol("C09", key, d.str());
     } else if (ok && i % 97 == 0) {
       ctx.sample("C09", "zone=" + z.cls + "/" + z.name + " fmt='" + fmt + "' in='" + in + "' -> t=" + std::to_string(un(tp)) + " fs=" + std::to_string(gfs.count()) + " (model agrees)");
     }
